@@ -180,3 +180,12 @@ package volume
 //@ ensures[C03] consumed(c) == len(c)
 //@ use nlast_hold(res(WeightedAveragePriceStrategy_Compute), len(res(WeightedAveragePriceStrategy_Compute)) - len(arg(ActionsToAnnotations, 0, 0)), len(res(WeightedAveragePriceStrategy_Compute)) - len(arg(ActionsToAnnotations, 0, 0)))
 //@ use nlast_skip(res(WeightedAveragePriceStrategy_Compute), arg(ActionsToAnnotations, 0, 0), len(res(WeightedAveragePriceStrategy_Compute)) - len(arg(ActionsToAnnotations, 0, 0)))
+
+// ---- generated by /verif/tools/gentypeinv.py: admissible configurations and warm-up of the strategy types ----
+//@ typeinv ChaikinMoneyFlowStrategy :: c.ChaikinMoneyFlow.Sum.Period >= 1 && warmup(self) == (c.ChaikinMoneyFlow.IdlePeriod())
+//@ typeinv EaseOfMovementStrategy :: e.EaseOfMovement.Sma.Period >= 1 && warmup(self) == (e.EaseOfMovement.IdlePeriod())
+//@ typeinv ForceIndexStrategy :: f.ForceIndex.Ema.Period >= 1 && warmup(self) == (f.ForceIndex.IdlePeriod())
+//@ typeinv MoneyFlowIndexStrategy :: m.MoneyFlowIndex.Sum.Period >= 1 && warmup(self) == (m.MoneyFlowIndex.IdlePeriod())
+//@ typeinv NegativeVolumeIndexStrategy :: n.NegativeVolumeIndexEma.Period >= 1 && warmup(self) == (n.NegativeVolumeIndex.IdlePeriod() + n.NegativeVolumeIndexEma.IdlePeriod())
+//@ typeinv WeightedAveragePriceStrategy :: v.WeightedAveragePrice.Sum.Period >= 1 && warmup(self) == (v.WeightedAveragePrice.IdlePeriod())
+// ---- end generated typeinv ----
